@@ -155,30 +155,56 @@ def git_apply_one(tmp, src, delta):
     return "ok", others[0]
 
 
+def make_pack_multi(pairs):
+    """pack = every distinct source as a blob + one REF_DELTA entry per (src, delta) pair against its own source"""
+    srcs = []
+    seen = set()
+    for src, _ in pairs:
+        if src not in seen:
+            seen.add(src)
+            srcs.append(src)
+    body = bytearray(b"PACK" + struct.pack(">II", 2, len(srcs) + len(pairs)))
+    for src in srcs:
+        body += entry_header(OBJ_BLOB, len(src)) + zlib.compress(src, 1)
+    for src, d in pairs:
+        body += entry_header(OBJ_REF, len(d)) + blob_oid(src) + zlib.compress(d, 1)
+    body += hashlib.sha1(body).digest()
+    return bytes(body), [blob_oid(x) for x in srcs]
+
+
 def git_apply_many(tmp, items):
     """items: list of (key, src, delta, expected) with expected = blob id (20 bytes) of the result predicted by
     some implementation, or None when a rejection is predicted.  Returns {key: ('ok', oid) | ('reject', text)}.
-    Predicted-ok deltas with the same source are batched into one pack; a batch that does not come
-    back exactly as predicted is re-run delta by delta, so the answer never depends on the prediction."""
+    Predicted-ok deltas (of any sources) are batched into one pack as long as all object ids in the batch are
+    distinct; a batch that does not come back exactly as predicted is re-run delta by delta, so the answer never
+    depends on the prediction.  Predicted rejections are always run one by one."""
     res = {}
-    groups = {}
     singles = []
+    batches = []
+    cur, cur_src, cur_exp = [], set(), set()
     for it in items:
         key, src, delta, exp = it
-        if exp is None or exp == blob_oid(src):
+        so = blob_oid(src)
+        if exp is None or exp == so:
             singles.append(it)
+            continue
+        if exp in cur_exp or exp in cur_src or so in cur_exp or len(cur) >= 48:
+            batches.append(cur)
+            cur, cur_src, cur_exp = [], set(), set()
+        cur.append(it)
+        cur_src.add(so)
+        cur_exp.add(exp)
+    if cur:
+        batches.append(cur)
+    for chunk in batches:
+        pack, src_oids = make_pack_multi([(s_, d) for _, s_, d, _ in chunk])
+        ok, r = index_pack(tmp, pack)
+        want = sorted(src_oids + [e for _, _, _, e in chunk])
+        if ok and sorted(r) == want:
+            for key, _, _, e in chunk:
+                res[key] = ("ok", e)
         else:
-            groups.setdefault(src, []).append(it)
-    for src, its in groups.items():
-        for k in range(0, len(its), 64):
-            chunk = its[k:k + 64]
-            ok, r = index_pack(tmp, make_pack(src, [d for _, _, d, _ in chunk]))
-            want = sorted([blob_oid(src)] + [e for _, _, _, e in chunk])
-            if ok and sorted(r) == want:
-                for key, _, _, e in chunk:
-                    res[key] = ("ok", e)
-            else:
-                singles.extend(chunk)
+            singles.extend(chunk)
     for key, src, delta, _ in singles:
         res[key] = git_apply_one(tmp, src, delta)
     return res
